@@ -47,7 +47,10 @@ func runIDs(x *X) {
 	x.Sample["config"] = fmt.Sprintf("request_id=%v(%s) trace=%v(%s) tasks=%d x %d requests at one virtual instant", cfg.RequestID.Enabled, rh, cfg.Trace.Enabled, th, tasks, per)
 	x.Logf("ids %s", x.Sample["config"])
 	s := x.StartMicro()
-	type seen struct{ req, trace string }
+	type seen struct {
+		req, trace string
+		lines      int // 0/1: one header line; 2: the value followed by a second, different line; 3: an empty line first
+	}
 	var backendSaw seen
 	_ = backendSaw
 	supplied := []string{ // (leading/trailing blanks cannot reach a handler: net/http's header parser trims them)
@@ -57,6 +60,7 @@ func runIDs(x *X) {
 		hReq, hTrace     string // what the inner handler saw on the request
 		outReq, outTrace string // what the client got
 		hadReq, hadTrace bool
+		emptyFirst       bool // the client's header came as an empty line followed by a value
 	}
 	var results []result
 	generated := map[string]int{}
@@ -67,6 +71,8 @@ func runIDs(x *X) {
 			if c.Intn(5, "supply") == 0 {
 				sp.req = supplied[c.Intn(len(supplied), "sreq")]
 				sp.trace = supplied[c.Intn(len(supplied), "strace")]
+				// a proxy in front may have added its own line: the header arrives on two lines
+				sp.lines = []int{1, 1, 1, 2, 3}[c.Intn(5, "id-lines")]
 			}
 			specs = append(specs, sp)
 		}
@@ -79,13 +85,22 @@ func runIDs(x *X) {
 				})
 				hnd := logging.RequestContextMiddleware(cfg)(inner)
 				r, _ := http.NewRequest("GET", "http://helios.test/", nil)
-				if sp.req != "" {
-					r.Header.Set(rh, sp.req)
-				}
-				if sp.trace != "" {
-					r.Header.Set(th, sp.trace)
+				for _, hv := range []struct{ name, val string }{{rh, sp.req}, {th, sp.trace}} {
+					if hv.val == "" {
+						continue
+					}
+					key := http.CanonicalHeaderKey(hv.name)
+					switch sp.lines {
+					case 2:
+						r.Header[key] = []string{hv.val, "second-line-" + hv.val}
+					case 3:
+						r.Header[key] = []string{"", hv.val}
+					default:
+						r.Header.Set(hv.name, hv.val)
+					}
 				}
 				res.inReq, res.inTrace = sp.req, sp.trace
+				res.emptyFirst = sp.lines == 3
 				rec := newRecorder()
 				hnd.ServeHTTP(rec, r)
 				res.outReq, res.outTrace = rec.sentHdr.Get(rh), rec.sentHdr.Get(th)
@@ -98,7 +113,19 @@ func runIDs(x *X) {
 		})
 	}
 	x.RunTasks(nil)
-	check := func(kind string, enabled bool, in, h, out string, had bool) {
+	check := func(kind string, enabled bool, in, h, out string, had bool, emptyFirst bool) {
+		if emptyFirst && in != "" {
+			// an empty line first: whether that counts as "supplied" is Helios' call (it generates a
+			// fresh one); what must hold either way: the backend sees what the client gets
+			if enabled {
+				if !had || out == "" {
+					x.Violate("C16", "C16/missing-on-response{"+kind+"}", "%s enabled but the response carries no identifier", kind)
+				} else if h != out {
+					x.Violate("C16", "C16/backend-client-mismatch{"+kind+",two-lines}", "the client sent the %s header as an empty line followed by %q: the handler saw %q but the client got %q", kind, in, h, out)
+				}
+			}
+			return
+		}
 		if !enabled {
 			if had && in == "" || h != in {
 				x.Violate("C16", "C16/disabled-but-touched{"+kind+"}", "%s propagation is disabled but the header was added or altered (client sent %q, handler saw %q, response has header=%v)", kind, in, h, had)
@@ -121,8 +148,8 @@ func runIDs(x *X) {
 		}
 	}
 	for _, r := range results {
-		check("request-id", cfg.RequestID.Enabled, r.inReq, r.hReq, r.outReq, r.hadReq)
-		check("trace-id", cfg.Trace.Enabled, r.inTrace, r.hTrace, r.outTrace, r.hadTrace)
+		check("request-id", cfg.RequestID.Enabled, r.inReq, r.hReq, r.outReq, r.hadReq, r.emptyFirst)
+		check("trace-id", cfg.Trace.Enabled, r.inTrace, r.hTrace, r.outTrace, r.hadTrace, r.emptyFirst)
 	}
 	for id, n := range generated {
 		if n > 1 {
